@@ -238,7 +238,7 @@ func (p *Program) prove(pr *Prover, re *regexp.Regexp, prop string, verbose bool
 		axioms := p.axiomsFor(vc)
 		selected := 0
 		for _, o := range vc.obligs {
-			if o.Kind != "canary" && (prop == "" || p.oblFor(o, fn, prop)) && (p.oblRe == nil || p.oblRe.MatchString(o.Name)) {
+			if o.Kind != "canary" && (prop == "" || p.oblForAny(o, fn, prop)) && (p.oblRe == nil || p.oblRe.MatchString(o.Name)) {
 				selected++
 			}
 		}
@@ -250,7 +250,7 @@ func (p *Program) prove(pr *Prover, re *regexp.Regexp, prop string, verbose bool
 				}
 				continue
 			}
-			if prop != "" && !p.oblFor(o, fn, prop) {
+			if prop != "" && !p.oblForAny(o, fn, prop) {
 				continue
 			}
 			if p.oblRe != nil && !p.oblRe.MatchString(o.Name) {
@@ -310,7 +310,7 @@ func (p *Program) prove(pr *Prover, re *regexp.Regexp, prop string, verbose bool
 				}
 				o := &Oblig{Name: "lemmas/" + lbl, Kind: "lemma", Props: ax.Props, Guard: "R0", Goal: tv.T, Clause: ax.Src, Where: fmt.Sprintf("%s:%d", ax.File, ax.Line)}
 				ivc.oblige(o)
-				if prop != "" && !hasProp(o.Props, prop) {
+				if prop != "" && !hasAnyProp(o.Props, prop) {
 					restore()
 					continue
 				}
@@ -362,7 +362,7 @@ func (p *Program) prove(pr *Prover, re *regexp.Regexp, prop string, verbose bool
 			}
 			o := &Oblig{Name: "lemmas/" + lbl, Kind: "lemma", Props: ax.Props, Guard: "R0", Goal: tv.T, Clause: ax.Src, Where: fmt.Sprintf("%s:%d", ax.File, ax.Line)}
 			lvc.oblige(o)
-			if prop != "" && !hasProp(o.Props, prop) {
+			if prop != "" && !hasAnyProp(o.Props, prop) {
 				continue
 			}
 			if p.oblRe != nil && !p.oblRe.MatchString(o.Name) {
@@ -429,7 +429,7 @@ func (p *Program) prove(pr *Prover, re *regexp.Regexp, prop string, verbose bool
 			res.DeadReturns = append(res.DeadReturns, o.Name)
 		}
 	}
-	if (prop == "" || prop == "C13") && re == nil {
+	if (prop == "" || containsStr(strings.Split(prop, "+"), "C13")) && re == nil {
 		for _, v := range p.purityScan() {
 			res.Verdicts = append(res.Verdicts, v)
 			if v.Status == "proved" {
@@ -454,6 +454,25 @@ func (p *Program) prove(pr *Prover, re *regexp.Regexp, prop string, verbose bool
 
 // tags that are not property ids: tier / proof-method / visibility markers of a clause
 var pseudoTag = map[string]bool{"thorough": true, "scoped": true, "induct": true, "lemmaonly": true}
+
+// A check may cover several properties at once (-prop C06+C07): the property itself and those its argument rests on.
+func hasAnyProp(props []string, plus string) bool {
+	for _, p := range strings.Split(plus, "+") {
+		if hasProp(props, p) {
+			return true
+		}
+	}
+	return false
+}
+
+func (p *Program) oblForAny(o *Oblig, fn *ssa.Function, plus string) bool {
+	for _, q := range strings.Split(plus, "+") {
+		if p.oblFor(o, fn, q) {
+			return true
+		}
+	}
+	return false
+}
 
 func hasProp(props []string, p string) bool {
 	for _, q := range props {
